@@ -54,7 +54,7 @@ def transport():
         "is_connected": T.Const(True), "_stop_threads": T.Bool(),
         "events": T.OneOf(T.ListOf(), T.ListOf(T.OpaqueS())),
         "tracking_events_count": T.Int(lo=0, hi=100000),
-        "events_mask": T.OneOf(T.Const(1), T.Const(3)),
+        "events_mask": T.Const(1),
         "write_mode_on": T.Sync("event", flag=True), "read_mode_on": T.Sync("event", flag=True)})
 
 
